@@ -238,6 +238,25 @@ func VerifyTSIG(b []byte, secrets map[string]string, prior []byte, timersOnly bo
 	return v
 }
 
+// MACMatches says whether the MAC a message carries is the RFC 8945 HMAC for
+// the given secret, prior MAC and timers-only setting - nothing else (not the
+// time, not the RCODE). judgable is false where the layout is not RFC 8945's.
+func MACMatches(b []byte, secretB64 string, prior []byte, timersOnly bool) (ok, judgable bool) {
+	t, _, has := FindTSIG(b)
+	if !has || t.Odd || t.Class != 255 || t.TTL != 0 {
+		return false, false
+	}
+	raw, err := base64.StdEncoding.DecodeString(secretB64)
+	if err != nil {
+		return false, false
+	}
+	d := Digest(b, t, raw, prior, timersOnly)
+	if d == nil {
+		return false, false
+	}
+	return hmac.Equal(d, t.MAC), true
+}
+
 // SignTSIG appends a TSIG record to an unsigned message (independent
 // signer used by scripted senders and the middlebox).
 func SignTSIG(msg []byte, keyName, alg string, secretB64 string, prior []byte, timersOnly bool, timeSigned uint64, fudge uint16) []byte {
